@@ -2008,6 +2008,13 @@ def index_loops(fn, ref_loops):
     root = b_txt.split('.')[0]
     if stored & (set(subs) | {root, idx_name or ref_idx, ref_idx}):
       continue
+    # the element variables are snapshots: if the body writes into the
+    # sequence, `v` and `X[i]` are no longer the same thing
+    if any(isinstance(n, ast.Subscript) and isinstance(
+        n.ctx, (ast.Store, ast.Del)) and ast.unparse(n.value).split(
+            '[')[0].split('.')[0] == root
+           for x in loop.body for n in ast.walk(x)):
+      continue
     if idx_name is None and any(n.id == ref_idx for n in body_names):
       continue
     after = [n for n in ast.walk(fn) if isinstance(n, ast.Name) and
